@@ -2,7 +2,7 @@
 """Run every claimed check (quick or thorough) on the current /repo tree, validate evidence files against the
 schema, print a summary.  usage: runall.py [--tier thorough] [ids...]"""
 import sys, os, json, subprocess, time
-sys.path.insert(0, "/verif")
+import os; sys.path.insert(0, os.path.dirname(os.path.dirname(os.path.abspath(__file__))))
 from vf import props
 tier = "thorough" if "--tier" in sys.argv and sys.argv[sys.argv.index("--tier") + 1] == "thorough" else "quick"
 ids = [a for a in sys.argv[1:] if a.startswith("C")] or sorted(props.PROPS)
